@@ -160,6 +160,11 @@ func (e *Engine) intrinsic3(name string, args []any) (any, bool) {
 		return SymStr{"(ite " + boolE(args[0]) + " " + strE(args[1]) + " " + strE(args[2]) + ")"}, true
 	case "IfBytes":
 		return BytesV{E: "(ite " + boolE(args[0]) + " " + bytesE(args[1]) + " " + bytesE(args[2]) + ")"}, true
+	case "Sat": // non-vacuity / tightness twin: the condition is satisfiable on this path (counted like a reach label)
+		if e.S.CheckWith(boolE(args[1])) == "sat" {
+			e.Reach[args[0].(string)]++
+		}
+		return nil, true
 	case "AppendSpare":
 		e.appendSpare, e.appendSpareChosen = int(args[0].(int64)), -1
 		return nil, true
